@@ -440,8 +440,9 @@ long long c_accumulate(long long nrows, long long ncols,
                 break;
             }
 
-            /* Get accumulated value */
-            accvalue = to_accumulate[idxdown[0]];
+            /* Get accumulated value, i.e. the contribution of the cell
+             * where the walk started */
+            accvalue = to_accumulate[i];
 
             /* Increase flow accumulation at downstream cell */
             accumulation[idxdown[0]] += accvalue;
